@@ -67,7 +67,22 @@ type L1Env struct {
 	Keys    map[string]*storetypes.KVStoreKey
 	EnvOp   func(ctx sdk.Context, o L1Op) error
 	AdminOf func(ctx sdk.Context, port, ch string) (uint64, bool)
+	// observation hygiene: every L1Obs call compares the gRPC queries with the keeper reads
+	ObsCount    int
+	QueryDiffs  []QueryDiff
+	bridgesList map[uint64]ophosttypes.QueryBridgeResponse
 }
+
+// a query answer that differs from the corresponding keeper read, found by the ObsCount-th L1Obs call
+type QueryDiff struct {
+	Obs  int
+	What string
+}
+
+// escrowAddr is the documented escrow address of a bridge (sha256 module-address derivation done
+// in the harness, harness/gen_c17.go indepAddr) - not ophosttypes.BridgeAddress: the accounts the
+// observations and monitors read must not depend on the code under test
+func escrowAddr(b uint64) sdk.AccAddress { return sdk.AccAddress(indepAddr(b)) }
 
 type noHook struct{}
 
@@ -140,7 +155,7 @@ func NewL1Env(seed uint64, nUsers int, hook ophosttypes.BridgeHook, extraKeys ..
 	}
 	// escrow addresses of the first bridges are part of the table: they are valid recipients
 	for b := uint64(1); b <= 8; b++ {
-		e.Table[ophosttypes.BridgeAddress(b).String()] = EscrowBase + b
+		e.Table[escrowAddr(b).String()] = EscrowBase + b
 	}
 	return e
 }
@@ -148,7 +163,7 @@ func NewL1Env(seed uint64, nUsers int, hook ophosttypes.BridgeHook, extraKeys ..
 func (e *L1Env) User(id uint64) *Account { return e.Users[id-1] }
 func (e *L1Env) AddrOf(id uint64) sdk.AccAddress {
 	if id > EscrowBase {
-		return ophosttypes.BridgeAddress(id - EscrowBase)
+		return escrowAddr(id - EscrowBase)
 	}
 	if id >= ModGov {
 		return e.ModAddr[id]
